@@ -8,6 +8,7 @@ import z3
 from . import src as S
 from .core import *  # noqa: F401,F403
 from .vals import *  # noqa: F401,F403
+from .vals import SEQ, MapSeqP, SetP, VMapSlot
 from .schema import SCHEMA, CLASS_MODULE
 
 MAXCP = 0x10FFFF
@@ -74,7 +75,12 @@ class ExprMixin:
             if ref not in self.payload0:
                 self.payload0[ref] = IntMapP(z3.Array(name + "?in", z3.IntSort(), z3.BoolSort()), z3.Array(name, z3.IntSort(), z3.IntSort()))
             return VDict(ref)
-        if ty in ("opaque", "map", "cache", "optlist"):
+        if ty == "cache":
+            ref = name
+            if ref not in self.payload0:
+                self.payload0[ref] = MapSeqP(z3.Array(name + "?in", z3.IntSort(), z3.BoolSort()), z3.Array(name, z3.IntSort(), SEQ))
+            return VOpt(z3.Bool(f"isnone({name})"), VDict(ref))
+        if ty in ("opaque", "map", "optlist"):
             return VObj(name, "<" + ty + ">")
         if ty == "none":
             return NONE
@@ -147,8 +153,8 @@ class ExprMixin:
             return self.list_len(p) > 0
         if isinstance(v, VTuple):
             return z3.BoolVal(len(v.items) > 0)
-        if isinstance(v, VDict) and isinstance(self.get_payload(v.ref, self.use_old), IntMapP):
-            raise Unsupported("truthiness of an int map")
+        if isinstance(v, VDict) and isinstance(self.get_payload(v.ref, self.use_old), (IntMapP, MapSeqP, SetP)):
+            raise Unsupported("truthiness of a symbolic map/set")
         if isinstance(v, VDict):
             return z3.BoolVal(len(self.get_payload(v.ref).items) > 0)
         if isinstance(v, (VObj, VFunc, VElem)):
@@ -273,7 +279,24 @@ class ExprMixin:
 
     def e_List(self, node, fr):
         items = [self.eval(e, fr) for e in node.elts]
+        if self.spec_mode and all(isinstance(x, VAtom) for x in items):
+            t = z3.Empty(SEQ)
+            for x in items:
+                t = z3.Concat(t, z3.Unit(x.t)) if not z3.is_true(z3.simplify(z3.Length(t) == 0)) or True else z3.Unit(x.t)
+            return VSeqZ(z3.simplify(t)) if items else VSeqZ(z3.Empty(SEQ))
         return self.new_list(PyListP(items))
+
+    def e_Set(self, node, fr):
+        items = [self.eval(e, fr) for e in node.elts]
+        mem = z3.K(z3.IntSort(), z3.BoolVal(False))
+        for it in items:
+            t = it.t if isinstance(it, VAtom) else (z3.IntVal(intern_atom(it.a)) if isinstance(it, VStr) and it.kind == "lit" else None)
+            if t is None:
+                raise Unsupported("set literal of non-atoms")
+            mem = z3.Store(mem, t, z3.BoolVal(True))
+        ref = self.new_ref("set")
+        self.payload[ref] = SetP(mem)
+        return VDict(ref)
 
     def e_Dict(self, node, fr):
         items = {}
@@ -361,6 +384,8 @@ class ExprMixin:
                 return VStr.chr(z3.If(c, ord(a.a), ord(b.a)))
             if a.kind == "lit" and b.kind == "lit" and a.a == b.a:
                 return a
+        if isinstance(a, VSeqZ) and isinstance(b, VSeqZ):
+            return VSeqZ(z3.If(c, a.t, b.t))
         if isinstance(a, VNone) and isinstance(b, VNone):
             return NONE
         if isinstance(a, VNone) and isinstance(b, (VInt, VStr, VAtom)):
@@ -465,6 +490,8 @@ class ExprMixin:
                 if m & (m + 1) == 0:  # mask 2^k - 1
                     return VInt(x % (m + 1)) if not z3.is_int_value(z3.simplify(x)) else VInt(z3.simplify(x).as_long() & m)
             raise Unsupported(f"int op {type(op).__name__}")
+        if isinstance(a, VSeqZ) and isinstance(b, VSeqZ) and isinstance(op, ast.Add):
+            return VSeqZ(z3.Concat(a.t, b.t))
         if isinstance(a, VStr) and isinstance(b, VStr) and isinstance(op, ast.Add):
             return str_concat(a, b)
         if isinstance(op, ast.Mult) and isinstance(a, VStr) and isinstance(b, (VInt, VBool)):
@@ -540,7 +567,7 @@ class ExprMixin:
             raise Unsupported(f"attribute {attr} of record")
         if isinstance(base, VModule):
             return self.value_of_global(base.name + "." + attr, fr)
-        if isinstance(base, (VStr, VList, VDict, VTuple, VAtom, VSeqZ, VOpt)):
+        if isinstance(base, (VStr, VList, VDict, VTuple, VAtom, VSeqZ, VOpt, VMapSlot)):
             return VFunc("method", attr, base)
         if isinstance(base, VFunc) and base.kind in ("global", "ext"):
             return VFunc(base.kind, base.name + "." + attr)
@@ -618,6 +645,11 @@ class ExprMixin:
                 self.safe_or_raise(z3.BoolVal(False), "IndexError", node, fr, "subscript")
                 raise PathEnd()
             raise Unsupported("symbolic index into tuple")
+        if isinstance(base, VDict) and isinstance(self.get_payload(base.ref, self.use_old), MapSeqP):
+            p = self.get_payload(base.ref, self.use_old)
+            k = self.atom_term(idx)
+            self.safe_or_raise(z3.Select(p.keys, k), "KeyError", node, fr, "subscript")
+            return VMapSlot(base.ref, k) if not self.spec_mode else VSeqZ(z3.Select(p.vals, k))
         if isinstance(base, VDict) and isinstance(self.get_payload(base.ref, self.use_old), IntMapP):
             p = self.get_payload(base.ref, self.use_old)
             k = self.as_int(idx)
@@ -738,6 +770,14 @@ class ExprMixin:
                 return z3.And(pa.len == pb.len, z3.ForAll([k], z3.Implies(z3.And(0 <= k, k < pa.len), pa.arr[k] == pb.arr[k])))
         if isinstance(a, VSeqZ) and isinstance(b, VSeqZ):
             return a.t == b.t
+        if isinstance(a, VSeqZ) and isinstance(b, VList) or isinstance(b, VSeqZ) and isinstance(a, VList):
+            sq, ls = (a, b) if isinstance(a, VSeqZ) else (b, a)
+            p = self.get_payload(ls.ref, self.use_old)
+            if isinstance(p, PyListP) and all(isinstance(x, VAtom) for x in p.items):
+                t = z3.Empty(SEQ)
+                for x in p.items:
+                    t = z3.Concat(t, z3.Unit(x.t))
+                return sq.t == (z3.simplify(t) if p.items else z3.Empty(SEQ))
         if isinstance(a, VDict) and isinstance(b, VDict):
             return z3.BoolVal(a.ref == b.ref)
         if isinstance(a, (VInt, VBool)) and isinstance(b, (VStr, VAtom)) or isinstance(b, (VInt, VBool)) and isinstance(a, (VStr, VAtom)):
@@ -758,6 +798,8 @@ class ExprMixin:
                     r = z3.BoolVal(True)
                 elif isinstance(x, VObj) and x.cls == "<cache>":
                     r = self.cache_is_none(x)
+                elif isinstance(x, VDict):
+                    r = z3.BoolVal(False)
                 else:
                     r = z3.BoolVal(False)
             elif isinstance(a, VObj) and isinstance(b, VObj):
@@ -816,7 +858,18 @@ class ExprMixin:
                 raise Unsupported("optional in str")
         return self.contains_special(container, x, node, fr)
 
+    def atom_term(self, x):
+        if isinstance(x, VAtom):
+            return x.t
+        if isinstance(x, VStr) and x.kind == "lit":
+            return z3.IntVal(intern_atom(x.a))
+        raise Unsupported(f"not an atom: {x!r}")
+
     def contains_special(self, container, x, node, fr):
+        if isinstance(container, VDict) and isinstance(self.get_payload(container.ref, self.use_old), SetP):
+            return z3.Select(self.get_payload(container.ref, self.use_old).mem, self.atom_term(x))
+        if isinstance(container, VDict) and isinstance(self.get_payload(container.ref, self.use_old), MapSeqP):
+            return z3.Select(self.get_payload(container.ref, self.use_old).keys, self.atom_term(x))
         if isinstance(container, VDict) and isinstance(self.get_payload(container.ref, self.use_old), IntMapP):
             return z3.Select(self.get_payload(container.ref, self.use_old).keys, self.as_int(x))
         if isinstance(container, VAtom):
